@@ -1,4 +1,5 @@
 """C18 - Losing a node: traffic is withdrawn from it and recovers on the survivors."""
+import concurrent.futures as cf
 import copy, json, os, random, re, sys, time
 sys.path.insert(0, os.path.dirname(os.path.dirname(os.path.abspath(__file__))))
 from lib.common import *
@@ -41,21 +42,31 @@ def cs(s):
 
 
 # ------------------------------------------------------------------ scenarios
-def scenario(cid, lose, mode, phase, endpoints, closing=None, mid_ms=0, bound_ms=None):
+def scenario(cid, lose, mode, phase, endpoints, closing=None, mid_ms=0, bound_ms=None, drop=0):
     n = sum(len(e["listeners"]) for e in endpoints)
     return {"id": cid, "lose": lose, "mode": mode, "phase": phase, "gossip_ms": GOSSIP_MS, "grace_ms": GRACE_MS,
             "delay_ms": DELAY_MS, "endpoints": endpoints, "closing": closing or (["shutdown", "ctx"] * n)[:n],
-            "bound_ms": bound_ms or BOUND_MS, "mid_ms": mid_ms}
+            "bound_ms": bound_ms or BOUND_MS, "mid_ms": mid_ms, "drop_reconnects": drop}
 
 
 def corpus():
-    """hand-picked scenarios, always run first. The first one is the D4 scenario: the server node a listener is
-    connected to shuts down (closes the connection); the listener must reconnect to a survivor."""
+    """hand-picked scenarios, always run first (stored in /verif/corpus/C18/*.json; the built-in list is the fallback).
+    The first one is the D4 scenario: the server node a listener is connected to shuts down (closes the connection);
+    the listener must reconnect to a survivor."""
+    cdir = os.path.join(VERIF, "corpus", ID)
+    if os.path.isdir(cdir):
+        files = sorted(f for f in os.listdir(cdir) if f.endswith(".json"))
+        if files:
+            return [json.load(open(os.path.join(cdir, f))) for f in files]
+    return builtin_corpus()
+
+
+def builtin_corpus():
     return [
         scenario("d4-graceful-connected", 0, "graceful", "connected",
-                 [{"id": "ea", "listeners": [0, 1]}, {"id": "eb", "listeners": [0]}]),
+                 [{"id": "ea", "listeners": [0, 1]}, {"id": "eb", "listeners": [0, 0]}]),
         scenario("crash-connected", 1, "crash", "connected",
-                 [{"id": "ea", "listeners": [1, 2]}, {"id": "eb", "listeners": [1, 1]}]),
+                 [{"id": "ea", "listeners": [1, 2]}, {"id": "eb", "listeners": [1, 1]}], drop=2),
         scenario("graceful-inflight", 2, "graceful", "inflight",
                  [{"id": "ea", "listeners": [2, 0]}, {"id": "eb", "listeners": [2]}]),
     ]
@@ -78,7 +89,8 @@ def gen_scenario(rng, cid, lose=None, mode=None, phase=None):
         eps[0]["listeners"][0] = lose
     n = sum(len(e["listeners"]) for e in eps)
     closing = [rng.choice(["shutdown", "ctx"]) for _ in range(n)]
-    return scenario(cid, lose, mode, phase, eps, closing, mid_ms=rng.choice([0, 1, 3, 8]) if mode == "mid" else 0)
+    return scenario(cid, lose, mode, phase, eps, closing, mid_ms=rng.choice([0, 1, 3, 8]) if mode == "mid" else 0,
+                    drop=rng.choice([0, 0, 1, 3]))
 
 
 def matrix(rng):
@@ -327,6 +339,10 @@ def cases_of(sc, o):
     return out
 
 
+# monitor signatures whose evidence is a recorded state or answer, not a missed deadline
+HARD_EVIDENCE = {"wrong-upstream", "listener-gave-up", "still-advertising", "no-left-marker", "listener-open", "routes-to-lost",
+                 "routes-to-left", "left-not-final", "lookup-bad-node", "close-outcome"}
+
 CODE_NAMES = {1: "accept-outcome", 2: "illegal-schedule", 3: "leaver-holds-upstreams", 4: "left-marker", 5: "listener-open",
               6: "notified-peer-not-left", 7: "gossip-view", 8: "routing-status", 9: "routing-endpoints", 10: "LookupEndpoint"}
 
@@ -366,11 +382,20 @@ def correspondence(wd, scs, outs, tag="nl"):
             owner.append(i)
     if not items:
         return [], 0
-    rc, out = coq_eval(wd, "Cases_%s_%s" % (ID, tag), cases_file(items))
-    mm = parse_mismatches(out)
-    if rc != 0 or mm is None:
-        raise RuntimeError("coq evaluation of cases failed:\n" + out[-3000:])
-    dis = [{"scenario": owner[k], "case": items[k][0], "codes": codes, "names": [CODE_NAMES.get(x, str(x)) for x in codes]} for k, codes in mm]
+    shard = 120
+    jobs = list(range(0, len(items), shard))
+
+    def work(si):
+        rc, out = coq_eval(wd, "Cases_%s_%s_%d" % (ID, tag, si), cases_file(items[si:si + shard]))
+        mm = parse_mismatches(out)
+        if rc != 0 or mm is None:
+            raise RuntimeError("coq evaluation of cases failed:\n" + out[-3000:])
+        return [(si + k, codes) for k, codes in mm]
+    dis = []
+    with cf.ThreadPoolExecutor(max_workers=8) as ex:
+        for r in ex.map(work, jobs):
+            for k, codes in r:
+                dis.append({"scenario": owner[k], "case": items[k][0], "codes": codes, "names": [CODE_NAMES.get(x, str(x)) for x in codes]})
     return dis, len(items)
 
 
@@ -425,7 +450,7 @@ def summary(sc, o):
         return {"id": sc["id"], "scenario": describe(sc), "panic": o["panic"]}
     return {"id": sc["id"], "scenario": describe(sc), "loss_ms": o["loss_ms"],
             "status_changes": {s["node"]: [(x["ms"] - o["loss_at_ms"], x["status"]) for x in s["timeline"]] for s in o["survivors"]},
-            "listeners": [{"ep": l["endpoint"], "connections": l["backends"], "final": l["final"]} for l in o["listeners"]],
+            "listeners": [{"ep": l["endpoint"], "connections": l["backends"], "refused_reconnects": l.get("refused", 0), "final": l["final"]} for l in o["listeners"]],
             "reregistered_after_ms": o["rereg_ms"] - o["loss_at_ms"] if o["rereg_ms"] >= 0 else None,
             "recovered_after_ms": {"%s@%s" % (r["ep"], r["node"]): (r["ok_ms"] - o["loss_at_ms"] if r["ok_ms"] >= 0 else None) for r in o["recovery"]},
             "requests": len(o["requests"])}
@@ -438,12 +463,15 @@ def run(ctx):
     quick = ctx["tier"] == "quick"
     scs = corpus()
     if quick:
-        scs += [gen_scenario(rng, "g0", mode="crash", phase="idle"), gen_scenario(rng, "g1", mode="mid")]
+        scs += [gen_scenario(rng, "g0", mode="mid", phase="connected"), gen_scenario(rng, "g1", mode="crash", phase="inflight"),
+                gen_scenario(rng, "g2", mode="graceful", phase="idle"), gen_scenario(rng, "g3"), gen_scenario(rng, "g4")]
     else:
-        scs += matrix(rng) + [gen_scenario(rng, "g%d" % i) for i in range(12)]
+        for rep in range(3):
+            scs += [dict(sc, id="%s-r%d" % (sc["id"], rep)) for sc in matrix(rng)]
+        scs += [gen_scenario(rng, "g%d" % i) for i in range(40)]
     binary = build_harness(PKG, dirs=HDIRS)
     t0 = time.time()
-    outs = run_scenarios(binary, wd, scs, parallel=1 if quick else 2)
+    outs = run_scenarios(binary, wd, scs, parallel=1 if quick else 3)
     log("[C18] %d scenarios on real 3-node clusters in %.1fs" % (len(scs), time.time() - t0))
 
     violations, known = [], []
@@ -464,13 +492,16 @@ def run(ctx):
         sc = dict(sc, bound_ms=RERUN_BOUND_MS)
         again = run_scenarios(binary, wd, [dict(sc, id=sc["id"] + "-again")], tag="again")[0]
         f2 = monitor(sc, again)
+        if f2 is None and f["sig"] in HARD_EVIDENCE:
+            # the recorded state is the evidence (not a deadline that was missed): an intermittent failure (race) is still a failure
+            f2, again = dict(f, why=f["why"] + " [observed in 1 of 2 runs of this scenario: intermittent]"), o
         if f2 is None:
             # every check is a poll with a generous bound, so this is a stall of the machine, not the tree: recorded, not raised
             log("[C18] monitor failure %s on %s did not reproduce on a second run: %s" % (f["sig"], sc["id"], f["why"]))
             unreproduced.append({"scenario": sc["id"], "sig": f["sig"], "why": f["why"]})
             continue
         small, so, sf = sc, again, f2
-        if f2["sig"] != "panic" and len(seen) <= 2:
+        if f2["sig"] != "panic" and len(seen) <= 2 and "intermittent]" not in f2["why"]:
             try:
                 cand = shrink(binary, wd, sc, f2["sig"], budget=3)
                 if cand is not sc:
@@ -523,7 +554,7 @@ def run(ctx):
                    if sc["phase"] != "idle" and any(l["at_loss"] == o["lost"] for l in o["listeners"])})
     det = [x["ms"] - o["loss_at_ms"] for sc, o in okc if sc["mode"] == "crash" for s in o["survivors"] for x in s["timeline"][1:2]]
     cov = {"evaluations": len(scs), "distinct_nontrivial": nontriv,
-           "rule": "one evaluation = one scenario on a fresh in-process cluster of 3 real server nodes: corpus (D4 scenario first: graceful loss of the node listeners are connected to; crash with listeners connected; graceful with requests in flight) then seeded scenarios (node to lose x phase idle/connected/in-flight x graceful/crash/crash-mid-shutdown; 1-3 endpoints with 1-3 listeners each, placement and closing ops random); thorough = the full 3x3x3 matrix + 12 random; non-trivial = at least one listener was connected to the lost node when it was lost; distinct by (lost node, mode, phase, placement)",
+           "rule": "one evaluation = one scenario on a fresh in-process cluster of 3 real server nodes: corpus (D4 scenario first: graceful loss of the node listeners are connected to; crash with listeners connected; graceful with requests in flight) then seeded scenarios (node to lose x phase idle/connected/in-flight x graceful/crash/crash-mid-shutdown; 1-3 endpoints with 1-3 listeners each, placement and closing ops random); thorough = the full 3x3x3 matrix three times with different placements + 40 random; non-trivial = at least one listener was connected to the lost node when it was lost; distinct by (lost node, mode, phase, placement)",
            "samples": [summary(sc, o) for sc, o in list(zip(scs, outs))[:2]],
            "correspondence": {"harness": "nodeloss (3 real server.Server nodes in one process, client.Upstream listeners, HTTP through every proxy port)",
                               "histories": len(okc), "ops": ncases, "distribution": kinds, "disagreements": len(dis), "seed": ctx["seed"],
